@@ -84,7 +84,12 @@ PROPS["C13"] = P(["handle", "tlv_enc"],
     "Proof (Verus): the classification prefix of handle_htlc returns Continue (payload None, or the input records minus the first type-16 record, byte for byte and in order) or the self-hint Fail, with the ghost world unchanged (no RPC, no table access) on every path; check_htlc/default_response verbatim.",
     HANDLE_NOTE, assumptions=["get/remove/to_bytes contracts (first record of a type; concatenation of record encodings)"])
 
-PROPS["C16"] = P(["provider"],
+PROPS["C15"] = P(["waitpay"],
+    "Proof (Verus, unbounded loop invariants): PayPaymentProvider::wait_payment verbatim against a node model with per-part sets: Ok(Some(p)) only if p is the preimage of a completed part; Ok(None) only if at return no part of the hash is pending or complete, for every number of parts, every order in which the waitsendpay results are consumed (FuturesUnordered is demonic), parts resolving at any time between the RPCs (node rely), and every error code (202/203/204/208/209 do not end the wait). On the pinned tree the clause no_part_completed_unseen_between_the_two_listings failed for the join! of the two listings (D5, fixed).",
+    "Trusted: " + TB_COMMON + " env/waitpay_env.rs: listsendpays returns a snapshot of the parts with the requested status taken when the node serves the call; waitsendpay returns when its part is no longer pending; parts only resolve while no pay command runs; env models of iter().filter_map().next(), by-value iteration (vstd IteratorSpecImpl) and FuturesUnordered (under E2 the pushed calls have run; next() returns results in arbitrary order -- sound for this function because its postconditions are stable under the rely). The ghost is unit-local (Node with part sets); the World-based interface contract of wait_payment used by units provider/lifecycle states the same two clauses over the summary fields (pending count / complete).",
+    assumptions=["no pay command for the hash is running while wait_payment runs (its callers establish this)", "CLN lists every part of the hash with the requested status"])
+
+PROPS["C16"] = P(["provider", "waitpay"],
     "Proof (Verus): PayPaymentProvider::pay verbatim against the node model of env/cln_pay.rs (COMPLETE => preimage of a completed part; FAILED without partial-completion warning => nothing live; PENDING / FAILED+warning / RPC error => nothing known) and wait_payment's contract: Ok(p) only with the preimage of a completed part; Err only when nothing is pending or complete -- except at the three exits of known finding F-C16-a. The PayRequest handed to the node carries maxfee/maxdelay/amount/bolt11 verbatim and no other fee knob (C03/C04).",
     "Trusted: " + TB_COMMON + " env/cln_pay.rs (pay status semantics; a pay RPC that has returned creates no further parts); wait_payment enters under its interface contract (C15).",
     assumptions=A_WORLD + ["a pay command that has returned (result or RPC error) creates no further parts"])
@@ -114,9 +119,8 @@ PROPS["C18"] = P(["tlv_dec", "tlv_enc"],
     bounded=[])
 
 NOT_APPLICABLE = {
-    "C15": "planned as unit waitpay (DESIGN.md section 7, C15) but not built in the time available: wait_payment needs the join! expansion, an env model of FuturesUnordered and per-part ghost sets; no other technique is used instead. wait_payment enters pay/payment_lifecycle under its assumed interface contract.",
 }
-HOOK_COMMITS = ["a595cb4", "8d4e42a", "747697f", "d2148d0", "01828dc"]
+HOOK_COMMITS = ["a595cb4", "8d4e42a", "747697f", "d2148d0", "01828dc", "e05e365"]
 NOTES = "Contract-based deductive verification of the real code; see DESIGN.md. exit 2 = undecided (never a VIOLATION)."
 
 # where a function that other units enter as a contract-only stub is actually proved
@@ -130,4 +134,5 @@ PROVED_IN = {
     "tlv::SerializedTlvStream::from_bytes": "unit tlv_dec",
     "tlv::SerializedTlvStream::try_from": "unit tlv_dec",
     "tlv::SerializedTlvStream::to_bytes": "unit tlv_enc",
+    "payment_provider::PayPaymentProvider::wait_payment": "unit waitpay (same two clauses, stated over the unit-local per-part ghost)",
 }
